@@ -3834,7 +3834,28 @@ type BinaryExpr struct {
 
 // String returns a string representation of the binary expression.
 func (e *BinaryExpr) String() string {
-	return fmt.Sprintf("%s %s %s", e.LHS.String(), e.Op.String(), e.RHS.String())
+	return fmt.Sprintf("%s %s %s", e.LHS.String(), e.Op.String(), e.rhsString())
+}
+
+// rhsString returns the string representation of the right operand.
+//
+// The parser stores a negated (or explicitly positive) reference, call or
+// group as the bare product -1 * x (1 * x), without parentheses. Behind an
+// operator of the same precedence that product has to be printed back with
+// its sign: a / -b is not a / -1 * b, which re-associates to (a / -1) * b.
+func (e *BinaryExpr) rhsString() string {
+	if rhs, ok := e.RHS.(*BinaryExpr); ok && rhs.Op == MUL && e.Op.Precedence() >= MUL.Precedence() {
+		if lit, ok := rhs.LHS.(*IntegerLiteral); ok && (lit.Val == -1 || lit.Val == 1) {
+			switch rhs.RHS.(type) {
+			case *VarRef, *Call, *ParenExpr:
+				if lit.Val < 0 {
+					return "-" + rhs.RHS.String()
+				}
+				return "+" + rhs.RHS.String()
+			}
+		}
+	}
+	return e.RHS.String()
 }
 
 // BinaryExprName returns the name of a binary expression by concatenating
